@@ -55,6 +55,7 @@ func runC20(c *core.Ctx) *core.Outcome {
 	cfg.SetSession = t.Chance(1, 2)
 	cfg.CacheSize = 0
 	cfg.First = t.Chance(1, 3)
+	cfg.Debug = t.Chance(1, 4) // an attached debugger looks, it does not touch
 	twoWorkers := false
 	if t.Chance(1, 4) {
 		// gateway policy: the session's persister is kept between requests (an engine per request all the same)
